@@ -293,7 +293,49 @@ def exhaustive_bounded(tier, seed, shard=0, nshards=1):
     return exhaustive(tier, seed, shard, nshards, bounded=True)
 
 
+def long_cases(tier):
+    """Longer signals (up to 14 samples per variable): ten and more update() calls on one monitor."""
+    from hypothesis import strategies as st2
+
+    @st2.composite
+    def mk(draw):
+        prof = DENSE_PAST.copy(max_bound=6, max_depth=3)
+        c = draw(ct_cases(prof, tier, max_samples=14, min_samples=8))
+        c['pastified'] = False
+        ts = sorted(set(k for s in c['signals'].values() for k, _ in s))
+        c['schedule'] = draw(st2.sampled_from(['single', 'common', 'independent']))
+        if c['schedule'] == 'single':
+            c['cuts'] = ts
+        elif c['schedule'] == 'common':
+            c['cuts'] = sorted(set(draw(st2.lists(st2.sampled_from(ts), min_size=3, max_size=10))))
+        else:
+            nmax = max(len(s) for s in c['signals'].values())
+            c['masks'] = {v: draw(st2.lists(st2.integers(0, 1), min_size=nmax, max_size=nmax)) for v in c['vars']}
+        return c
+    return mk()
+
+
+def near_twin_cases(tier):
+    """g JOIN g' with g' one label away from g (operators and cached values are keyed by printed name)."""
+    from hypothesis import strategies as st2
+    from ..common import near_twin
+
+    @st2.composite
+    def mk(draw):
+        c = draw(cases(tier, False))
+        g = from_json(c['formula'])
+        g2 = draw(near_twin(g))
+        if g2 is None or g2 == g:
+            g2 = ('un', 'not', g)
+        join = draw(st2.sampled_from(['and', 'or', 'implies', 'since']))
+        c['formula'] = ('bin', join, g, g2) if draw(st2.booleans()) else ('bin', join, g2, g)
+        return c
+    return mk()
+
+
 LANES = [
+    Lane('near_twins', near_twin_cases, check, 1200, 15000, candidates),
+    Lane('long_chunked', long_cases, check, 600, 8000, candidates),
     Lane('unbounded_chunked', lambda tier: cases(tier, False, bounded=False), check, 3000, 40000, candidates),
     Lane('bounded_whole', lambda tier: cases(tier, False, chunked=False), check, 1500, 20000, candidates),
     Lane('pastified_whole', lambda tier: cases(tier, True, chunked=False), check, 1000, 15000, candidates),
